@@ -98,6 +98,49 @@ def run_one(res, spec, opts_name=""):
     return v
 
 
+def blind_names(spec, d):
+    """Rename 1-3 designer signals / ports onto names the elaborator is going to invent in that module for instance-related
+    objects (<inst>_<port> implicit signals, <array>_<k> elements, <pair>_p / _n), without looking at what it does invent.
+    Renaming designer objects consistently leaves the circuit unchanged."""
+    import copy
+    from .c05 import rename, designer_names
+    s = copy.deepcopy(spec)
+    feats = s.pop("features", [])
+    done = 0
+    for _ in range(d.int(1, 3)):
+        mi = d.int(0, len(s["modules"]) - 1)
+        m = s["modules"][mi]
+        if m.get("history") or not m["insts"] or not m["sigs"]:
+            continue
+        # ports without a connection of their own (they live on references: an implicit signal is certain to be created for them)
+        opens = [(i2, p) for i2 in m["insts"] for p in model.target_iface(s, i2["of"]) if p[0] == "sig" and p[1] not in dict(i2["conns"])]
+        if opens and d.bool(60):
+            inst, p0 = d.choice(opens)
+            cands = [inst["name"] + "_" + p0[1]]
+            kind = "inst"
+        else:
+            inst = d.choice(m["insts"])
+            kind = inst.get("kind", "inst")
+            cands = [inst["name"] + "_" + p[1] for p in model.target_iface(s, inst["of"]) if p[0] == "sig"]
+        if kind == "array":
+            cands += ["%s_%d" % (inst["name"], k) for k in range(inst["n"])]
+        if kind == "pair":
+            cands += [inst["name"] + "_p", inst["name"] + "_n"]
+        if not cands:
+            continue
+        new = d.choice(cands) + d.choice(["", "", "_"])
+        if new in designer_names(m):
+            continue
+        ports = [sg[0] for sg in m["sigs"] if sg[2] != "sig"]
+        old = d.choice(ports) if ports and d.bool(50) else d.choice([sg[0] for sg in m["sigs"]])
+        rename(s, mi, "sig", old, new)
+        done += 1
+    if not done:
+        return None
+    s["features"] = list(feats) + ["designer_name_like_an_invented_one"]
+    return s
+
+
 def shard(idx, n, tier):
     env.setup_paths()
     import hdl21  # noqa  (imported, never used to build anything in this process)
@@ -122,6 +165,27 @@ def shard(idx, n, tier):
             run_one(res, spec, name)
 
         run()
+
+    # designer names chosen like the ones the elaborator invents (blind: no first export to learn them from)
+    from hypothesis import strategies as st
+
+    @hypothesis.seed(env.subseed(PID, idx, "blindnames"))
+    @settings(max_examples=max(1, total // 12 // n), database=None, deadline=None, derandomize=False,
+              suppress_health_check=list(HealthCheck), phases=[Phase.generate], report_multiple_bugs=False)
+    @given(st.data())
+    def run_blind(data):
+        spec = data.draw(gen.designs(gen.Opts(max_modules=3, max_insts=4)))
+        s2 = blind_names(spec, gen.D(data.draw))
+        if s2 is None:
+            return
+        try:
+            model.flatten(s2)
+        except model.ModelError:
+            res.notes["blind_rename_invalid"] += 1
+            return
+        run_one(res, s2, "blindnames")
+
+    run_blind()
     return res
 
 
